@@ -107,12 +107,12 @@ Definition lens_ok (strict : bool) (lens : list N) : bool :=
   negb (over_subscribed lens) &&
   (complete lens || (negb strict && (max_len lens <=? 1))).
 
-Inductive dsym := DSym (s : N) (rest : list bool) | DTrunc | DInvalid.
+Inductive dsym := DSym (s : N) (len : N) (rest : list bool) | DTrunc | DInvalid.
 
 (* Canonical decoding, one bit at a time (most significant code bit first, 3.1.1):
    [code] is the value of the bits read so far, [first] the first code of the current
    length, [index] the position in canonical order of the first symbol of this length. *)
-Fixpoint decode_aux (counts syms : list N) (code first index : N) (bits : list bool) : dsym :=
+Fixpoint decode_aux (counts syms : list N) (code first index len : N) (bits : list bool) : dsym :=
   match counts with
   | [] => DInvalid
   | count :: counts' =>
@@ -121,8 +121,8 @@ Fixpoint decode_aux (counts syms : list N) (code first index : N) (bits : list b
       | b :: bits' =>
           let code := code + b2n b in
           if (first <=? code) && (code - first <? count)
-          then DSym (nth (N.to_nat (index + (code - first))) syms 0) bits'
-          else decode_aux counts' syms (2 * code) (2 * (first + count)) (index + count) bits'
+          then DSym (nth (N.to_nat (index + (code - first))) syms 0) (len + 1) bits'
+          else decode_aux counts' syms (2 * code) (2 * (first + count)) (index + count) (len + 1) bits'
       end
   end.
 
@@ -130,7 +130,7 @@ Record hcode := { hc_counts : list N; hc_syms : list N }.
 Definition mk_hcode (lens : list N) : hcode :=
   {| hc_counts := bl_count lens; hc_syms := canon_syms lens |}.
 Definition decode_sym (h : hcode) (bits : list bool) : dsym :=
-  decode_aux (hc_counts h) (hc_syms h) 0 0 0 bits.
+  decode_aux (hc_counts h) (hc_syms h) 0 0 0 0 bits.
 
 (* ------------------------------------------------------------------ alphabets (3.2.5) *)
 
@@ -190,35 +190,37 @@ Arguments POk {A}. Arguments PTrunc {A}. Arguments PErr {A}.
 
 (* --- tokens of one compressed block; [fuel] is only a structural-recursion device:
    every iteration consumes at least one bit, so passing the bit list itself suffices. *)
-Fixpoint parse_tokens (fuel : list bool) (lit dist : hcode) (bits : list bool)
-         (acc : list token) : pres (list token) :=
+Fixpoint parse_tokens (fuel : list bool) (lit dist : hcode) (bits : list bool) (pos : N)
+         (acc : list token) : pres (list token * N) :=
   match fuel with
   | [] => PTrunc
   | _ :: fuel' =>
       match decode_sym lit bits with
       | DTrunc => PTrunc
       | DInvalid => PErr EBadSymbol
-      | DSym s bits1 =>
-          if s <? 256 then parse_tokens fuel' lit dist bits1 (Lit s :: acc)
-          else if s =? 256 then POk (frev acc) bits1
+      | DSym s l1 bits1 =>
+          if s <? 256 then parse_tokens fuel' lit dist bits1 (pos + l1) (Lit s :: acc)
+          else if s =? 256 then POk (frev acc, pos + l1) bits1
           else if 285 <? s then PErr EBadSymbol
           else
             let i := N.to_nat (s - 257) in
-            match take_bits (N.to_nat (nth i length_extra 0)) bits1 with
+            let ne := nth i length_extra 0 in
+            match take_bits (N.to_nat ne) bits1 with
             | None => PTrunc
             | Some (e, bits2) =>
                 let len := nth i length_base 0 + e in
                 match decode_sym dist bits2 with
                 | DTrunc => PTrunc
                 | DInvalid => PErr EBadSymbol
-                | DSym d bits3 =>
+                | DSym d l2 bits3 =>
                     if 29 <? d then PErr EBadSymbol
                     else
                       let j := N.to_nat d in
-                      match take_bits (N.to_nat (nth j dist_extra 0)) bits3 with
+                      let nd := nth j dist_extra 0 in
+                      match take_bits (N.to_nat nd) bits3 with
                       | None => PTrunc
                       | Some (e2, bits4) =>
-                          parse_tokens fuel' lit dist bits4
+                          parse_tokens fuel' lit dist bits4 (pos + l1 + ne + l2 + nd)
                                        (Match len (nth j dist_base 0 + e2) :: acc)
                       end
                 end
@@ -227,10 +229,10 @@ Fixpoint parse_tokens (fuel : list bool) (lit dist : hcode) (bits : list bool)
   end.
 
 (* --- the HLIT + HDIST code lengths, coded with the code-length code (3.2.7) *)
-Fixpoint parse_lens (fuel : list bool) (cl : hcode) (total : N) (bits : list bool)
-         (acc : list N) (* reversed *) : pres (list N) :=
+Fixpoint parse_lens (fuel : list bool) (cl : hcode) (total : N) (bits : list bool) (pos : N)
+         (acc : list N) (* reversed *) : pres (list N * N) :=
   if total <=? N.of_nat (length acc) then
-    (if total =? N.of_nat (length acc) then POk (frev acc) bits else PErr ERepeatOverrun)
+    (if total =? N.of_nat (length acc) then POk (frev acc, pos) bits else PErr ERepeatOverrun)
   else
   match fuel with
   | [] => PTrunc
@@ -238,8 +240,8 @@ Fixpoint parse_lens (fuel : list bool) (cl : hcode) (total : N) (bits : list boo
       match decode_sym cl bits with
       | DTrunc => PTrunc
       | DInvalid => PErr EBadSymbol
-      | DSym s bits1 =>
-          if s <? 16 then parse_lens fuel' cl total bits1 (s :: acc)
+      | DSym s l1 bits1 =>
+          if s <? 16 then parse_lens fuel' cl total bits1 (pos + l1) (s :: acc)
           else if s =? 16 then
             match acc with
             | [] => PErr ERepeatFirst
@@ -247,18 +249,18 @@ Fixpoint parse_lens (fuel : list bool) (cl : hcode) (total : N) (bits : list boo
                 match take_bits 2 bits1 with
                 | None => PTrunc
                 | Some (e, bits2) =>
-                    parse_lens fuel' cl total bits2 (repeat prev (N.to_nat (3 + e)) ++ acc)
+                    parse_lens fuel' cl total bits2 (pos + l1 + 2) (repeat prev (N.to_nat (3 + e)) ++ acc)
                 end
             end
           else if s =? 17 then
             match take_bits 3 bits1 with
             | None => PTrunc
-            | Some (e, bits2) => parse_lens fuel' cl total bits2 (repeat 0 (N.to_nat (3 + e)) ++ acc)
+            | Some (e, bits2) => parse_lens fuel' cl total bits2 (pos + l1 + 3) (repeat 0 (N.to_nat (3 + e)) ++ acc)
             end
           else
             match take_bits 7 bits1 with
             | None => PTrunc
-            | Some (e, bits2) => parse_lens fuel' cl total bits2 (repeat 0 (N.to_nat (11 + e)) ++ acc)
+            | Some (e, bits2) => parse_lens fuel' cl total bits2 (pos + l1 + 7) (repeat 0 (N.to_nat (11 + e)) ++ acc)
             end
       end
   end.
@@ -286,17 +288,15 @@ Definition mkblock fin k toks ll dl cl : block :=
 
 (* [consumed] = number of bits consumed before [bits], needed to find the byte boundary *)
 Definition parse_block (bits : list bool) (consumed : N) : pres (block * N) :=
-  let total0 := nlength bits in
   match take_bits 3 bits with
   | None => PTrunc
   | Some (hdr, bits1) =>
       let fin := N.odd hdr in
       let ty := hdr / 2 in
-      let ret (b : block) (rest : list bool) :=
-          POk (b, consumed + (total0 - nlength rest)) rest in
+      let p1 := consumed + 3 in
       if ty =? 0 then
-        let pad := N.to_nat ((8 - (consumed + 3) mod 8) mod 8) in
-        match take_bits pad bits1 with
+        let pad := (8 - p1 mod 8) mod 8 in
+        match take_bits (N.to_nat pad) bits1 with
         | None => PTrunc
         | Some (_, bits2) =>
             match take_bits 16 bits2 with
@@ -309,14 +309,15 @@ Definition parse_block (bits : list bool) (consumed : N) : pres (block * N) :=
                     else
                       match take_bytes (N.to_nat len) bits4 with
                       | None => PTrunc
-                      | Some (bytes, bits5) => ret (mkblock fin Stored (map Lit bytes) [] [] []) bits5
+                      | Some (bytes, bits5) =>
+                          POk (mkblock fin Stored (map Lit bytes) [] [] [], p1 + pad + 32 + 8 * len) bits5
                       end
                 end
             end
         end
       else if ty =? 1 then
-        match parse_tokens bits1 (mk_hcode fixed_litlen_lens) (mk_hcode fixed_dist_lens) bits1 [] with
-        | POk toks rest => ret (mkblock fin Fixed toks [] [] []) rest
+        match parse_tokens bits1 (mk_hcode fixed_litlen_lens) (mk_hcode fixed_dist_lens) bits1 p1 [] with
+        | POk (toks, p2) rest => POk (mkblock fin Fixed toks [] [] [], p2) rest
         | PTrunc => PTrunc
         | PErr e => PErr e
         end
@@ -338,17 +339,18 @@ Definition parse_block (bits : list bool) (consumed : N) : pres (block * N) :=
                 let cl := clens_at cvals in
                 if negb (lens_ok true cl) then PErr EClenCode
                 else
-                match parse_lens bits5 (mk_hcode cl) (hlit + 257 + hdist + 1) bits5 [] with
+                match parse_lens bits5 (mk_hcode cl) (hlit + 257 + hdist + 1) bits5
+                                 (p1 + 14 + 3 * (hclen + 4)) [] with
                 | PTrunc => PTrunc
                 | PErr e => PErr e
-                | POk lens bits6 =>
+                | POk (lens, p2) bits6 =>
                     let ll := firstn (N.to_nat (hlit + 257)) lens in
                     let dl := skipn (N.to_nat (hlit + 257)) lens in
                     if negb (lens_ok false ll) then PErr ELitlenCode
                     else if negb (lens_ok false dl) then PErr EDistCode
                     else
-                    match parse_tokens bits6 (mk_hcode ll) (mk_hcode dl) bits6 [] with
-                    | POk toks rest => ret (mkblock fin Dynamic toks ll dl cl) rest
+                    match parse_tokens bits6 (mk_hcode ll) (mk_hcode dl) bits6 p2 [] with
+                    | POk (toks, p3) rest => POk (mkblock fin Dynamic toks ll dl cl, p3) rest
                     | PTrunc => PTrunc
                     | PErr e => PErr e
                     end
